@@ -57,6 +57,10 @@ def fam_probe_loss(seed, n):
 def fam_evict(seed, n):
     return [scen.evict_script(seed, i) for i in range(n)]
 
+@family("zwin")
+def fam_zwin(seed, n):
+    return [scen.zwin_script(seed, i) for i in range(n)]
+
 @family("walk")
 def fam_walk(seed, n):
     from . import walk
@@ -101,9 +105,12 @@ def check(pid):
 def sizes(tier, quick, thorough):
     return thorough if tier == "thorough" else quick
 
+NO_COVERAGE = {"MCClose", "MCSocket"}    # (multi-million-state instances: -coverage slows TLC 2-8x)
 def model(r, spec, cfg_quick, cfg_thorough=None, timeout=600, workers=8):
     cfg = cfg_thorough if (r.tier == "thorough" and cfg_thorough) else cfg_quick
-    res = core.tlc_model(spec, cfg, timeout=timeout, workers=workers, coverage=(r.tier == "thorough"))
+    thorough = r.tier == "thorough"
+    res = core.tlc_model(spec, cfg, timeout=2400 if thorough else timeout, workers=12 if thorough else workers,
+                         coverage=(thorough and spec not in NO_COVERAGE))
     r.add_model(res)
     return res
 
@@ -167,7 +174,8 @@ KF = [("kf", 6, 6)]
 def c01(tier, seed):
     r = Result("C01", tier, seed)
     model(r, "MCData", "MCData_quick", "MCData")
-    scripts = xfer_scripts(tier, seed, 50, 1000) + fam_mtu(seed, sizes(tier, 16, 300)) + fam_kf(seed, 6)
+    scripts = xfer_scripts(tier, seed, 50, 1000) + fam_mtu(seed, sizes(tier, 16, 300)) + fam_kf(seed, 6) + \
+        fam_peer_send(seed, sizes(tier, 48, 600))
     r.samples = [sample_of(s) for s in scripts[:2]]
     r.add_validated(core.run_and_validate("C01", scripts))
     req_parts = component(r, "ooq", tier, seed, ["C01."]) + component(r, "segs", tier, seed, ["C01.", "Segs."])
@@ -176,7 +184,7 @@ def c01(tier, seed):
     return r.finish(rule_text=GENERAL_RULE + "; component checks: ooq (Reasm.tla), segs (Segments.tla)",
                     required_cov=["C01.SegContiguous", "C01.ReadIsPrefix", "C01.SegStable", "C01.NoGarbage"] + req_parts)
 
-std_check("C02", [("xfer_clean", 30, 400), ("xfer", 40, 800), ("peer_recv", 24, 300)] + KF,
+std_check("C02", [("xfer_clean", 30, 400), ("xfer", 40, 800), ("peer_recv", 24, 300), ("zwin", 16, 200)] + KF,
           ["C02.IdleWrite", "C02.IdleShutdown", "C02.NoStall", "C02.Silence", "C02.CompletesOk", "C02.ReaderWoken"],
           assumptions=["liveness of the code is observed as completion without failure in virtual time over the explored schedules",
                        "application pauses and network delays stay below the configured inactivity timeout; the SYN itself is not dropped"])
